@@ -45,7 +45,11 @@ def chrom_parent(genome, name="chr1", alphabet="NT_EXTENDED_GAPPED"):
     return seq_to_parent(genome, alphabet=Alphabet[alphabet], seq_id=name)
 
 
-def chunk_parent(genome, cs, ce, name="chr1", alphabet="NT_EXTENDED_GAPPED"):
+def chunk_parent(genome, cs, ce, name="chr1", alphabet="NT_EXTENDED_GAPPED", strand="+"):
+    """sequence-chunk parent for the window [cs, ce); strand "-" = the chunk is the reverse complement of its window"""
+    if strand == "-":
+        from harness.refmodel import revcomp
+        return seq_chunk_to_parent(revcomp(genome[cs:ce]), name, cs, ce, strand=STRAND["-"], alphabet=Alphabet[alphabet])
     return seq_chunk_to_parent(genome[cs:ce], name, cs, ce, alphabet=Alphabet[alphabet])
 
 
